@@ -127,7 +127,7 @@ def obligations(tier, seed):
         # page no verdict in 900 s / 700 MB, 3 row slice (-DLAST_ROW=4) out of memory at 9.4 GB after 273 s (every cell iteration has a symbolic early return and up to four
         # guarded stores into the 1056 cell page array).  Only the candidate below (match position on the grid, earlier state symbolic) is decided.
     ] + ([
-        # CANDIDATES (only with VERIF_CANDIDATES=1): refute the unchanged tree (TODO-defect-candidates.md items 8, 9)
+        # FORMER CANDIDATES (refuted the pinned tree; the defects are repaired by fix commits, the obligations now guard them): (TODO-defect-candidates.md items 8, 9)
         Ob("highlight_first_cell", func="h_c17_highlight",
            desc="continuation positions left by highlight() for a match that begins in row 1 column 0 (match [0, 1)), from ANY earlier value of "
                 "row[1]/col[1]: they must become row 1 / column 0 (the cell the match starts in); refuted: they are written only for cells in front of the match and stay "
@@ -144,7 +144,7 @@ def obligations(tier, seed):
                  _fe(NC=2, PG0=0x150, PG1=0x151, SM0=0, SM1=1, PRES=0b011001, START_PG=0x151, START_SUB=0x3F7E, DIR=-1)],
            unwind=8, unwindset={"_vbi_cache_foreach_page.1": 40, "_vbi_cache_foreach_page.0": 2060}, bounds="2 populations",
            reach=["end"], timeout=900, mem_gb=4, vin_size=32),
-    ] if os.environ.get("VERIF_CANDIDATES") else []) + [
+    ] if True else []) + [   # former candidates: the defects they decide are repaired in /repo (see known_findings.json)
         # haystack construction with SYMBOLIC sizes (h_c17_haystack without SIZES) is NOT registered: no encoding produced a verdict.  Measured: 23 rows, symbolic
         # cells: timeout 300 s; 2-row slice (LAST_ROW = 3), 2 x 5 symbolic cells: 7.5 GB then out of memory at 170 s; 1 row, 4 cells: 10 GB at 100 s; size
         # attributes enumerated on the grid (all pointers concrete), 23 rows: symex ~20 s per row and growing (> 8 min); same on the 2-row slice: 7.5 GB /
